@@ -52,7 +52,7 @@ def _values_for(value, rng, pool):
     return out
 
 
-def variants(obj, rng, pool, per_field=8, others=()):
+def variants(obj, rng, pool, per_field=8, others=(), depth=0):
     """yield (description, variant object)"""
     cls = type(obj)
     if not attr.has(cls):
@@ -85,13 +85,18 @@ def variants(obj, rng, pool, per_field=8, others=()):
                 cands = _values_for(cur, rng, pool)
             except Exception:  # pylint: disable=broad-except
                 cands = []
+            plain = bool(cands)
             if f.default is None:
                 cands.append(('absent', None))
+            if not plain and attr.has(type(cur)) and depth == 0:
+                # a component object (key=value component of a header field, nested structure): vary its own fields
+                for l2, v2 in variants(cur, rng, pool, per_field=4, others=(), depth=1):
+                    cands.append(('.' + l2, v2))
         if len(cands) > per_field and all(l == 'member' for l, _ in cands):
             cands = cands[:3] + rng.sample(cands[3:], per_field - 3)
         for label, v in cands:
             try:
-                yield '%s=%s' % (f.name, label), attr.evolve(obj, **{f.name.lstrip('_'): v})
+                yield ('%s%s' if label.startswith('.') else '%s=%s') % (f.name, label), attr.evolve(obj, **{f.name.lstrip('_'): v})
             except Exception:  # pylint: disable=broad-except
                 continue
 
